@@ -215,6 +215,25 @@ func fuzzPayload(s *Sim, n *Node, t *Tape, txs []*Tx) *Payload {
 			}
 			rm.AddPayload(p.Clone())
 		}
+		if t.Chance(SProbe, 1, 2) {
+			// an application that does not authenticate compact entries: whatever the sender
+			// put inside reaches the library, with any validator index and view
+			rm.Lax = true
+			for k := int(t.Draw(SProbe, 4)); k > 0; k-- {
+				ii := uint16(t.Draw(SProbe, uint64(nv+3)))
+				iv := byte(t.Draw(SProbe, 4))
+				switch t.Draw(SProbe, 4) {
+				case 0:
+					rm.ChViews = append(rm.ChViews, &Payload{T: dbft.ChangeViewType, H: h, V: iv, Idx: ii, Body: &ChView{NewView: iv + 1 + byte(t.Draw(SProbe, 2)), TS: 1}, sender: -1})
+				case 1:
+					rm.PrepResps = append(rm.PrepResps, &Payload{T: dbft.PrepareResponseType, H: h, V: v, Idx: ii, Body: &PrepResp{}, sender: -1})
+				case 2:
+					rm.Commits = append(rm.Commits, &Payload{T: dbft.CommitType, H: h, V: iv, Idx: ii, Body: &CommitBody{Sig: []byte{1}}, sender: -1})
+				case 3:
+					rm.PreCommits = append(rm.PreCommits, &Payload{T: dbft.PreCommitType, H: h, V: iv, Idx: ii, Body: &PreCommitBody{D: []byte{1}}, sender: -1})
+				}
+			}
+		}
 		body = rm
 	}
 	p := &Payload{T: typ, H: h, V: v, Idx: uint16(idx), Body: body, sender: -1}
